@@ -45,6 +45,7 @@ func (p *PM) readTask(id string, done chan struct{}) {
 // DemandBody builds the body of an on-demand scenario.
 func DemandBody(c *conf.Conf, sp DemandSpec) func() {
 	return func() {
+		Live = nil
 		pm := New(c, AllowAll{}, true)
 		Live = pm
 		desc, _, _ := NewDesc()
@@ -184,12 +185,25 @@ func CheckDemand(o *vsched.Outcome) (string, string) {
 	return "", ""
 }
 
-// CheckHookPairs is the C20a oracle: per path and hook family the invocations alternate start/stop,
-// opened by the start hook, and nothing is left open once the manager has been closed.
+// CheckHookPairs is the C20a oracle: per path and hook family the server's hook invocations follow
+// idle -(start hook started)-> running -(start hook stopped)-> stopped -(un hook launched)-> idle,
+// i.e. start/stop executions strictly alternate and each pair is opened by the start hook; once the path
+// manager has been closed no pair is left open. (Both hooks of every family are configured by the harness.)
 func CheckHookPairs(o *vsched.Outcome) (string, string) {
 	tr := strings.Join(o.Trace, ", ")
-	open := map[string]bool{}
+	const (
+		idle = iota
+		running
+		stopped
+	)
+	state := map[string]int{}
 	closed := false
+	fams := map[string][2]string{ // hook -> (family, role)
+		"runOnDemand": {"demand", "start"}, "runOnUnDemand": {"demand", "un"},
+		"runOnAvailable": {"available", "start"}, "runOnUnavailable": {"available", "un"},
+		"runOnOnline": {"online", "start"}, "runOnOffline": {"online", "un"},
+		"runOnInit": {"init", "start"},
+	}
 	for _, l := range o.Trace {
 		w := strings.Fields(l)
 		if w[0] == "closed" {
@@ -199,39 +213,51 @@ func CheckHookPairs(o *vsched.Outcome) (string, string) {
 			continue
 		}
 		path, hook, ev := w[1], w[2], w[3]
-		fam := map[string]string{
-			"runOnDemand": "demand", "runOnUnDemand": "demand", "runOnAvailable": "available", "runOnUnavailable": "available",
-			"runOnReady": "ready", "runOnNotReady": "ready", "runOnOnline": "online", "runOnOffline": "online", "runOnInit": "init",
-		}[hook]
-		if fam == "" {
+		fr, ok := fams[hook]
+		if !ok {
 			continue
 		}
-		key := path + "/" + fam + "/" + map[bool]string{true: "cmd", false: "un"}[!strings.Contains(hook, "Un") && !strings.Contains(hook, "Not") && hook != "runOnOffline"]
-		switch ev {
-		case "started":
-			if open[key] {
-				return "hook-double-start", fmt.Sprintf("%s of path %s started twice without a stop in between | %s", hook, path, tr)
+		key := path + "/" + fr[0]
+		st := state[key]
+		switch {
+		case fr[1] == "start" && ev == "started":
+			if st != idle {
+				return "hook-double-start", fmt.Sprintf("%s of path %s started while the previous %s pair was still open | %s", hook, path, fr[0], tr)
 			}
-			open[key] = true
-		case "stopped":
-			if !open[key] {
-				return "hook-stop-without-start", fmt.Sprintf("%s of path %s stopped without having been started | %s", hook, path, tr)
+			state[key] = running
+		case fr[1] == "start" && ev == "stopped":
+			if st != running {
+				return "hook-stop-without-start", fmt.Sprintf("%s of path %s stopped without running | %s", hook, path, tr)
 			}
-			open[key] = false
-		case "launched":
-			// the "un" hook of a family is launched when the pair closes: its start hook must not be open any more
-			base := path + "/" + fam + "/cmd"
-			if open[base] {
-				return "hook-un-before-stop", fmt.Sprintf("%s of path %s launched while the start hook is still running | %s", hook, path, tr)
+			state[key] = stopped
+			if fr[0] == "init" {
+				state[key] = idle // runOnInit has no un-hook
 			}
+		case fr[1] == "un" && ev == "launched":
+			if st != stopped {
+				return "hook-un-without-pair", fmt.Sprintf("%s of path %s launched although no %s pair had just been closed by the start hook | %s", hook, path, fr[0], tr)
+			}
+			state[key] = idle
 		}
 	}
 	if closed {
-		for k, v := range open {
-			if v {
+		for k, v := range state {
+			if v != idle {
 				return "hook-left-open", fmt.Sprintf("hook pair %s is still open after the path manager was closed | %s", k, tr)
 			}
 		}
 	}
 	return "", ""
+}
+
+// CheckHooksOnly is the C20a check for any pmlib scenario: completion + hook pairing.
+func CheckHooksOnly(o *vsched.Outcome) (string, string) {
+	tr := strings.Join(o.Trace, ", ")
+	if o.Failure != "" {
+		return "sched-" + strings.SplitN(o.Failure, ":", 2)[0], o.Failure + " | " + tr
+	}
+	if len(o.Trace) == 0 || o.Trace[len(o.Trace)-1] != "end" {
+		return "incomplete", "scenario did not run to its end | " + tr
+	}
+	return CheckHookPairs(o)
 }
